@@ -69,7 +69,7 @@ class FileProxy:
         object.__setattr__(self, "_t", target)
 
     def _call(self, name, *a, **kw):
-        tok = self._h.before(self._t, name, a[:1] if name in ("seek", "write") else None)
+        tok = self._h.before(self._t, name, (a[:2] if name == "seek" else a[:1]) if name in ("seek", "write") else None)
         r = getattr(self._f, name)(*a, **kw)
         self._h.after(tok, self._t, name)
         return r
